@@ -127,6 +127,7 @@ func runC14(c *Ctx) {
 	c14GateSeesCoercedVariables(c)
 	c14Definition(c)
 	c14Walker(c)
+	layoutAgreement(c)
 
 	// ---- saturating-only ------------------------------------------------------------------
 	c.R.Rule("saturating-only", "package complexity: integer +,-,*,<< on int values only inside the saturating adder; the adder returns its raw sum only on the no-wrap edge with both operands tested non-negative; the selection type switch covers every ast.Selection implementation; a custom complexity is used only on the `ok && custom >= child` edge; every selection kind reaches the adder on every path of its case (only introspection __Schema fields may be skipped)", 7)
